@@ -302,8 +302,8 @@ Proof.
     destruct I as [I1 I2 I3 I4 I5]. cbn [xstep x_f14] in F. apply orb_false_iff in F as [_ F].
     constructor; cbn [xstep papply d_put x_cells x_onexc x_calls x_gen x_list d_cells d_onexc d_calls d_dets]; try assumption.
     apply R_put; [exact I4 | | reflexivity].
-    intros HIn. apply (existsb_exists (Nat.eqb (fst n))) in F; [discriminate|]. exists (fst n).
-    split; [exact HIn | apply Nat.eqb_refl].
+    intros HIn. assert (T : existsb (Nat.eqb (fst n)) (x_gen x) = true); [|congruence].
+    apply existsb_exists. exists (fst n). split; [exact HIn | apply Nat.eqb_refl].
   - destruct I as [I1 I2 I3 I4 I5].
     constructor; cbn [xstep papply x_cells x_onexc x_calls x_gen x_list d_cells d_onexc d_calls d_dets]; try assumption.
     now rewrite I1.
